@@ -8,6 +8,7 @@
     echo       copy bytes as they arrive (like cat): partial lines are echoed
     early      answer "<early>" to every line as soon as its first byte arrives
     stdio      default stdio buffering of a pipe (like `tr`/`sed` without -u)
+  MODE+pre=HEX puts the given bytes in front of every answer.
   MODE+num makes the child stateful: the answer to its n-th line (from 0) is "n:<" + L.upper() + ">".
   The answer to line L is "<" + L.upper() + ">" for eager/block/readall/stdio and L itself for echo.
   --log FILE   append every line received on stdin to FILE (what the child was given)
@@ -23,6 +24,9 @@ CR_TAIL = False
 FIELD3 = False
 
 
+PREFIX = b""      # "+pre=HEX": every answer starts with these bytes
+
+
 NUMBER = None     # "+num": a STATEFUL child; the answer to its n-th line (from 0) starts with "n:"
 
 
@@ -34,13 +38,16 @@ def answer(line):
     if FIELD3:   # print the third tab-separated field (empty if absent or empty)
         f = line.split(b"\t")
         return f[2] if len(f) > 2 else b""
-    return b"<" + line.upper() + b">" + (b"\r" if CR_TAIL else b"")
+    return PREFIX + b"<" + line.upper() + b">" + (b"\r" if CR_TAIL else b"")
 
 
 def main():
     args = sys.argv[1:]
     mode = args[0] if args else "eager"
-    global CR_TAIL, FIELD3, NUMBER
+    global CR_TAIL, FIELD3, NUMBER, PREFIX
+    if "+pre=" in mode:
+        mode, hx = mode.split("+pre=")
+        PREFIX = bytes.fromhex(hx)
     if mode.endswith("+num"):     # answers are numbered: depends on how many lines the child has seen
         NUMBER = 0
         mode = mode[:-4]
